@@ -1,5 +1,6 @@
 """More process-level monitors on the real binary: C13, C17, and the binary stages of C04, C06, C12, C14."""
 import random
+import subprocess
 import re
 import zlib
 import threading
@@ -7,7 +8,7 @@ import time
 from concurrent.futures import ThreadPoolExecutor
 
 import vcheck as vc
-from procmon import Engine, oracle_positions, oracle_games, oracle_heavy, oracle, position_cmd, now
+from procmon import Engine, oracle_positions, oracle_games, oracle_heavy, static_heavy, oracle, position_cmd, now
 
 START_LEGAL = sorted(["a2a3", "a2a4", "b2b3", "b2b4", "c2c3", "c2c4", "d2d3", "d2d4", "e2e3", "e2e4", "f2f3", "f2f4",
                       "g2g3", "g2g4", "h2h3", "h2h4", "b1a3", "b1c3", "g1f3", "g1h3"])
@@ -74,13 +75,34 @@ def c13_session(binary, plan, positions, delays=None):
         searched = False
         for (name, value, pos, go) in plan:
             r = {"option": name, "value": value, "between_searches": searched, "verdict": "held"}
+            n_before = e.n_out()
             e.send(f"setoption name {name} value {value}")
-            if not settle(e, 60.0):
+            ok = settle(e, 60.0)
+            if ok:
+                with e.cv:
+                    refused = any("Unable to change" in x for _, x in e.out_lines[n_before:])
+                if refused:
+                    # the option arrived while the finished search thread still held the table lock and the engine
+                    # said so; the value counts as set only once it was accepted, so it is sent again a moment later
+                    r["refused_first"] = True
+                    time.sleep(0.08)
+                    e.send(f"setoption name {name} value {value}")
+                    ok = settle(e, 60.0)
+            if not ok:
                 v, sig, text = crash_or_hang(e, f"isready after setoption name {name} value {value}")
                 r.update({"verdict": v, "signature": f"c13.{sig}.isready", "what": text})
                 results.append(r)
                 break  # violated or inconclusive: never reuse an engine whose answer went missing (a late answer would be
                 # attributed to the next question)
+            if zlib.crc32(f"{name}={value}".encode()) % 3 == 0:
+                # what a GUI does after changing options between games
+                r["then_ucinewgame"] = True
+                e.send("ucinewgame")
+                if not settle(e, 60.0):
+                    v, sig, text = crash_or_hang(e, f"isready after setoption name {name} value {value} and ucinewgame")
+                    r.update({"verdict": v, "signature": f"c13.{sig}.ucinewgame", "what": text})
+                    results.append(r)
+                    break
             e.send(position_cmd(pos["root"], pos["moves"]))
             n = e.n_out()
             e.send(go)
@@ -182,6 +204,10 @@ def c13_stage(out, tier, seed):
             for r in res:
                 stats["values"] += 1
                 stats["between" if r.get("between_searches") else "first"] += 1
+                if r.get("refused_first"):
+                    out.features["values_refused_in_the_bestmove_window_then_set_again"] = out.features.get("values_refused_in_the_bestmove_window_then_set_again", 0) + 1
+                if r.get("then_ucinewgame"):
+                    out.features["values_followed_by_ucinewgame"] = out.features.get("values_followed_by_ucinewgame", 0) + 1
                 distinct.add((bname, r["option"], r["value"]))
                 out.features[f"option_{r['option'].replace(' ', '_')}_values"] = out.features.get(f"option_{r['option'].replace(' ', '_')}_values", 0) + 1
                 if r["option"] == "Hash" and r["value"] in (0, 1024):
@@ -313,8 +339,8 @@ def c17_stage(out, tier, seed):
     if thorough:
         bins.append(("debug", vc.build_repo("debug")))
     n_games = 60000 if thorough else 5000
-    games = oracle_games(harness, n_games, seed, 150)
-    # the UCI parser must also accept the longest games a GUI can send
+    # the first games are very long (820..2500 plies, 'position' lines of 4..12 KB): the longest games a GUI can send
+    games = oracle_games(harness, n_games, seed, 150, long=120 if thorough else 16)
     conv_alive = [True, True, True, None, None, None]
     conv_lock = threading.Lock()
     batches = []
@@ -387,7 +413,8 @@ def c17_stage(out, tier, seed):
     out.features["longest_game_plies"] = stats["max_plies"]
     g0 = games[1] if len(games) > 1 else games[0]
     out.samples.append({"command": position_cmd(g0["root"], g0["moves"])[:400], "expected_fen": g0["fens"][1], "expected_replies": g0["replies"][:10]})
-    out.rules.append("legal games generated by refchess (from startpos or corpus FENs, 0..600 plies, biased to castling, en "
+    out.rules.append("legal games generated by refchess (from startpos or corpus FENs, 0..600 plies, plus games kept alive to 820..2500 "
+                     "plies whose command line is 4..12 KB long; biased to castling, en "
                      "passant and all promotion pieces) sent as 'position ... moves ...' to the real binary; 'd fen', "
                      "'d perftdiv 1' and 'go depth 1' compared with the reference's final position, reply set and "
                      "legality; distinct = distinct (root, move list) with >= 1 move")
@@ -414,6 +441,11 @@ def c14_timed(binary, pos, clock_ms, inc_ms, mtg, white):
         t1 = now()
         cpu1 = e.cpu_ns()
         if got is None:
+            if cpu0 is not None and cpu1 is not None and e.alive() and (cpu1 - cpu0) / 1e6 > clock_ms:
+                # still thinking, and the engine's OWN CPU time since 'go' already exceeds the whole clock
+                return {"verdict": "violated", "signature": "c14.flagged",
+                        "what": f"'{go}': no move yet after {(cpu1 - cpu0) / 1e6:.0f} ms of the engine's own CPU time: the clock "
+                                f"({clock_ms} ms) ran out before the move", "history": e.history(40)}
             v, sig, text = crash_or_hang(e, f"'{go}'")
             return {"verdict": v, "signature": f"c14.{sig}", "what": text, "history": e.history(40)}
         wall_ms = (t1 - t0) * 1000.0
@@ -444,10 +476,19 @@ def c14_stage(out, tier, seed):
                       rng.choice([None, None, 1, 2, 40])))
     # positions whose FIRST iteration alone outlasts the clock (many queens: the capture search explodes):
     # the limit has to be enforced inside iteration 1 too
-    heavy = oracle_heavy(harness, 16 if thorough else 4, seed + 14, 300)
+    # (a fixed measured list first - it does not rely on the tree's own poll counter - then freshly measured ones)
+    sh = static_heavy(harness)
+    for hp in (sh if thorough else rng.sample(sh, 4)):
+        cases.append((hp, rng.choice([200, 300, 500, 1000]), 0, rng.choice([None, 1])))
+        out.features["timed_searches_quiescence_heavy"] = out.features.get("timed_searches_quiescence_heavy", 0) + 1
+    try:
+        heavy = oracle_heavy(harness, 16 if thorough else 4, seed + 14, 300, timeout=600 if thorough else 150)
+    except subprocess.TimeoutExpired:
+        heavy = []  # the measurement itself is a bounded search of the tree under test; the fixed list stands in
+        out.features["fresh_heavy_measurement_timed_out"] = 1
     for hp in heavy:
         cases.append((hp, rng.choice([200, 300, 500]), 0, rng.choice([None, 1])))
-        out.features["timed_searches_quiescence_heavy"] = out.features.get("timed_searches_quiescence_heavy", 0) + 1
+        out.features["timed_searches_quiescence_heavy_fresh"] = out.features.get("timed_searches_quiescence_heavy_fresh", 0) + 1
     lock = threading.Lock()
     margins = []
 
@@ -578,7 +619,10 @@ def c14_stage(out, tier, seed):
 # ---------------------------------------------------------------------------------------
 # C04 — process-level: the real search thread (2 MiB stack, panic=abort in release)
 
-def c04_session(binary, plan):
+DEEP_ROOTS = ["8/8/8/p7/P7/8/8/K6k w - - 0 1", "8/p7/P7/8/8/8/8/K1k5 w - - 0 1", "k6K/8/8/8/p7/P7/8/8 b - - 0 1"]
+
+
+def c04_session(binary, plan, wait=60.0):
     e = Engine(binary)
     res = []
     try:
@@ -592,7 +636,10 @@ def c04_session(binary, plan):
             if "infinite" in go:
                 time.sleep(0.05)
                 e.send("stop")
-            got = e.wait_line(lambda x: x.startswith("bestmove"), n, 60.0)
+            got = e.wait_line(lambda x: x.startswith("bestmove"), n, wait)
+            with e.cv:
+                sd = [int(x.split()[4]) for _, x in e.out_lines[n:] if x.startswith("info depth") and len(x.split()) > 4 and x.split()[3] == "seldepth" and x.split()[4].isdigit()]
+            r["max_seldepth"] = max(sd or [0])
             if got is None:
                 v, sig, text = crash_or_hang(e, f"'{go}' in {pos['fen']}")
                 r.update({"verdict": v, "signature": f"c04.binary.{sig}", "what": text})
@@ -649,12 +696,36 @@ def c04_stage(out, tier, seed):
                 pre.append("ucinewgame")
             plan.append((pos, go, pre))
         sessions.append((bins[i % 2], plan, long_chain))
+    # deepest recursion of the REAL search thread (its stack is the one the engine itself sets up): blocked pawn
+    # endings, where iterative deepening reaches three-digit depths within seconds and lines run up to the
+    # fifty-move horizon. Fixed depths, so the recursion depth reached does not depend on machine load.
+    deep = []
+    for f in DEEP_ROOTS:
+        lines = oracle(harness, "legal", ["--fen", f])
+        deep.append({"root": f, "moves": "", "fen": f, "legal": [x for x in lines if x.startswith("moves ")][0].split()[1:]})
+    deep_plans = [(bins[0], deep[0], 255 if thorough else 150), (bins[0], deep[1], 255 if thorough else 150),
+                  (bins[1], deep[0], 150 if thorough else 110)]
+    if thorough:
+        deep_plans += [(bins[0], deep[2], 255), (bins[1], deep[1], 150)]
+    for b, pos, d in deep_plans:
+        sessions.insert(0, (b, [(pos, f"go depth {d}", ["setoption name Hash value 64"])], "deep"))
     lock = threading.Lock()
     distinct = set()
 
     def work(s):
         (bname, binary), plan, long_chain = s
-        res = c04_session(binary, plan)
+        if long_chain == "deep":
+            res = c04_session(binary, plan, wait=1500.0)
+            with lock:
+                for r in res:
+                    out.features[f"binary_deep_recursion_searches_{bname}"] = out.features.get(f"binary_deep_recursion_searches_{bname}", 0) + 1
+                    k = f"binary_max_seldepth_{bname}"
+                    out.extra["x_" + k] = max(out.extra.get("x_" + k, 0), r.get("max_seldepth", 0))
+                    if r.get("max_seldepth", 0) >= (100 if bname == "release" else 66):
+                        out.features[f"binary_{bname}_recursion_{100 if bname == 'release' else 66}_plies_plus"] = out.features.get(f"binary_{bname}_recursion_{100 if bname == 'release' else 66}_plies_plus", 0) + 1
+            long_chain = False
+        else:
+            res = c04_session(binary, plan)
         with lock:
             out.evaluations += len(res)
             out.features[f"binary_searches_{bname}"] = out.features.get(f"binary_searches_{bname}", 0) + len(res)
@@ -672,7 +743,9 @@ def c04_stage(out, tier, seed):
     out.groups["c04-binary"] = len(distinct)
     out.samples.append({"binary_session": [(p["fen"], g, pre) for (p, g, pre) in sessions[1][1][:5]]})
     out.rules.append("process-level: sessions of searches on the real debug (overflow checks) and release (panic=abort, 2 MiB "
-                     "search-thread stack) binaries, incl. 270 searches without ucinewgame, Hash 0, infinite+stop: bestmove "
+                     "search-thread stack) binaries, incl. 270 searches without ucinewgame, Hash 0, infinite+stop, and fixed-depth "
+                     "searches of blocked pawn endings to depth 110..255 (selective depth >= 100 in release, >= 66 in debug: the "
+                     "deepest recursion the real search thread's stack has to hold): bestmove "
                      "legal per refchess, no panic output, process alive")
     out.stage_info.append({"stage": "binary-sessions", "sessions": len(sessions)})
 
@@ -683,6 +756,9 @@ def c04_stage(out, tier, seed):
 INFO_RE = re.compile(r"^info depth (\d+) .*?score (cp|mate) (-?\d+) .*? pv (.+)$")
 
 
+GO_SUFFIX = ["", " movetime 4000", " wtime 120000 btime 120000 winc 1000 binc 1000"]
+
+
 def c08_session(binary, plan):
     """plan: list of (pos, depth). Returns text blocks for the oracle."""
     e = Engine(binary)
@@ -690,12 +766,13 @@ def c08_session(binary, plan):
     try:
         e.send("setoption name Hash value 16")
         settle(e, 60)
-        for (pos, depth, newgame) in plan:
+        for k, (pos, depth, newgame) in enumerate(plan):
             if newgame:
                 e.send("ucinewgame")
             e.send(position_cmd(pos["root"], pos["moves"]))
             n = e.n_out()
-            e.send(f"go depth {depth}")
+            # every third search carries a time limit as well as the depth limit: both bind
+            e.send(f"go depth {depth}" + GO_SUFFIX[k % 3 if depth <= 4 else 0])
             got = e.wait_line(lambda x: x.startswith("bestmove"), n, 120.0)
             if got is None:
                 break
@@ -763,7 +840,8 @@ def c08_stage(out, tier, seed):
             out.features["binary_mate_announcements"] = int(f[3])
     out.groups["c08-binary"] = len({(o[0], o[1]["fen"], o[2]) for o in owners})
     out.rules.append("process-level: every 'info depth .. score .. pv ..' line printed by the real binary for fixed-depth "
-                     "searches (tables reused across a session) is judged by the same oracle")
+                     "searches (tables reused across a session; two in three searches of depth <= 4 also carry a movetime or a "
+                     "clock, so that the depth limit binds next to a time limit) is judged by the same oracle")
     out.stage_info.append({"stage": "lines-binary", "searches": len(owners)})
 
 
